@@ -223,7 +223,7 @@ impl<'de> serde::de::Visitor<'de> for CfgFileVisitor {
                 return Err(serde::de::Error::custom(format!("unknown locale {:?}", k)));
             }
 
-            if !locales.contains(v) {
+            if !locales.contains(v) && v != &default {
                 return Err(serde::de::Error::custom(format!("unknown locale {:?}", v)));
             }
         }
